@@ -132,7 +132,7 @@ pub fn execute(sc: &Scenario, verbose: bool) -> RunOut {
             if fired {
                 out.stats.inc("fault.F-SER.fired");
             }
-            let feat = || ty_features(ty).join("+");
+
             match res {
                 Err(p) => {
                     let msg = panic_msg(&p);
@@ -182,7 +182,7 @@ pub fn execute(sc: &Scenario, verbose: bool) -> RunOut {
 }
 
 fn check_roundtrip(name: &str, so: SerOut, ty: &Ty, val: &Val, m: &Option<Tree>, out: &mut RunOut, verbose: bool) {
-    let feat = || ty_features(ty).join("+");
+
     let rcfg = RCfg::plain();
     let cx = Ctx::new(Fault::None, verbose);
     let (tree, back): (Option<Tree>, Result<Result<Val, String>, String>) = match &so {
